@@ -111,3 +111,72 @@ def install(lib):
 
 
 GROUP = "helpers"
+
+
+class LruVariations(Contract):
+    """lru_variations(lru) (C17, the two clauses a contract can decide): it raises
+    nothing for ANY byte string, and the result is a list of 1..4 entries whose first is
+    the input.  `split`, the host filter, `join` and the www `replace` are abstracted
+    (lengths only): the identities between the entries are left to the bounded stand-in."""
+
+    qual = "lru_variations"
+
+    def setups(self, ex):
+        p = Path()
+        lru = fresh("lru", BYTES)
+        p.w["__lru"] = lru
+        yield p, None, [lru], {}, "any"
+
+    def check(self, ex, p0, res, tag):
+        lru = p0.w["__lru"]
+        for p1, kind, val in res:
+            if kind == "raise":
+                ex.oblige(p1, "raises-nothing(%s)" % val[0], False, val[1])
+                continue
+            o = p1.obj(val) if hasattr(val, "oid") else None
+            if o is None or "items" not in o.f:
+                ex.oblige(p1, "returns-a-list", False, None)
+                continue
+            items = o.f["items"]
+            ex.oblige(p1, "between-1-and-4-entries", z3.BoolVal(1 <= len(items) <= 4), None)
+            ex.oblige(p1, "first-entry-is-the-prefix-itself", to_z3(items[0]) == lru, None)
+
+
+class HttpsVariation(Contract):
+    """https_variation switches exactly the leading scheme stem"""
+
+    qual = "https_variation"
+
+    def setups(self, ex):
+        p = Path()
+        lru = fresh("lru", BYTES)
+        p.w["__lru"] = lru
+        yield p, None, [lru], {}, "any"
+
+    def check(self, ex, p0, res, tag):
+        lru = p0.w["__lru"]
+        http, https = to_z3(b"s:http|"), to_z3(b"s:https|")
+        for p1, kind, val in res:
+            if kind == "raise":
+                ex.oblige(p1, "raises-nothing(%s)" % val[0], False, val[1])
+                continue
+            if isinstance(val, Opt):
+                none, v = val.none, val.val
+            else:
+                none, v = z3.BoolVal(val is None), val
+            is_http = z3.PrefixOf(http, lru)
+            is_https = z3.PrefixOf(https, lru)
+            ex.oblige(p1, "None<=>scheme-is-neither-http-nor-https", to_z3(none) == z3.Not(z3.Or(is_http, is_https)), None)
+            if v is not None:
+                vz = to_z3(v)
+                rest_http = z3.Extract(lru, 7, z3.Length(lru) - 7)
+                rest_https = z3.Extract(lru, 8, z3.Length(lru) - 8)
+                ex.oblige(p1, "http->https:only-the-scheme-stem-changes", z3.Implies(z3.And(z3.Not(to_z3(none)), is_http), vz == z3.Concat(https, rest_http)), None)
+                ex.oblige(p1, "https->http:only-the-scheme-stem-changes", z3.Implies(z3.And(z3.Not(to_z3(none)), z3.Not(is_http), is_https), vz == z3.Concat(http, rest_https)), None)
+
+
+_install0 = install
+
+
+def install(lib):
+    return _install0(lib) + [HttpsVariation(), LruVariations()]
